@@ -54,19 +54,11 @@ SVGNS = 'http://www.w3.org/2000/svg'
 # comparing a library Path with reference pieces
 
 def lib_polylines(path):
+    """one polyline per segment (never merged: sub-sampling a merged run would cut its corners)"""
     out = []
-    run = None
     for s in path:
         n = 4096 if type(s).__name__ == 'Arc' else (2 if type(s).__name__ == 'Line' else 2048)
-        pts = np.asarray(s.point(np.linspace(0, 1, n)), dtype=complex)
-        if run is not None and abs(run[-1] - pts[0]) == 0:
-            run = np.concatenate([run, pts[1:]])
-        else:
-            if run is not None:
-                out.append(run)
-            run = pts
-    if run is not None:
-        out.append(run)
+        out.append(np.asarray(s.point(np.linspace(0, 1, n)), dtype=complex))
     return out
 
 
